@@ -93,7 +93,7 @@ mod verif_c02_draw_min {
         draw_min(1, 0);
     }
 
-    // @harness id=C02 tier=thorough timeout=3000 mem=28 checks=rust
+    // @harness id=C02 tier=quick timeout=3000 mem=28 checks=rust
     // @bounds 1 member, a dropped (zombie) bar at the head: painted for the last time, reaped, its row becomes a kept row (zombie_lines_count + 1, last_line_count 0)
     #[kani::proof]
     #[kani::unwind(6)]
@@ -102,7 +102,7 @@ mod verif_c02_draw_min {
         draw_min(1, 1);
     }
 
-    // @harness id=C02 tier=thorough timeout=3000 mem=28 checks=rust
+    // @harness id=C02 tier=deep timeout=3000 mem=28 checks=rust
     // @bounds 2 members, the head one a zombie, the second live: both painted in order, only the head is reaped, Keep(1)
     #[kani::proof]
     #[kani::unwind(6)]
@@ -111,7 +111,7 @@ mod verif_c02_draw_min {
         draw_min(2, 1);
     }
 
-    // @harness id=C02 tier=thorough timeout=3000 mem=28 checks=rust
+    // @harness id=C02 tier=deep timeout=3000 mem=28 checks=rust
     // @bounds 2 members, the SECOND one a zombie (not at the head): both painted, nothing reaped, nothing kept
     #[kani::proof]
     #[kani::unwind(6)]
